@@ -638,6 +638,10 @@ fn death_reason(st: std::process::ExitStatus, stderr: &std::path::Path) -> Strin
 /// A case on which the child dies or exceeds the watchdog gets `<reason>@<stage>` (reason = stack-overflow,
 /// abort:.., hang) and the child is restarted on the remaining cases.
 fn run_isolated(mode: &str, tag: &str, cases: &[(usize, bool, &str)], dir: &std::path::Path, deaths: &mut Vec<String>) -> BTreeMap<usize, String> {
+    run_isolated_w(mode, tag, cases, dir, deaths, WATCHDOG)
+}
+
+fn run_isolated_w(mode: &str, tag: &str, cases: &[(usize, bool, &str)], dir: &std::path::Path, deaths: &mut Vec<String>, watchdog: Duration) -> BTreeMap<usize, String> {
     let mut results = BTreeMap::new();
     let mut from = 0usize;
     let mut round = 0;
@@ -677,7 +681,7 @@ fn run_isolated(mode: &str, tag: &str, cases: &[(usize, bool, &str)], dir: &std:
         let mut first = true;
         let mut stage = String::from("start");
         let mut died: Option<String> = None;
-        let mut deadline = Instant::now() + WATCHDOG * 6; // the first answer of a child includes process and VM start-up
+        let mut deadline = Instant::now() + watchdog * 6; // the first answer of a child includes process and VM start-up
         while k < cases.len() {
             let now = Instant::now();
             let left = if deadline > now { deadline - now } else { Duration::from_millis(0) };
@@ -685,7 +689,7 @@ fn run_isolated(mode: &str, tag: &str, cases: &[(usize, bool, &str)], dir: &std:
                 Ok(l) => {
                     if l == "ready" {
                         first = false;
-                        deadline = Instant::now() + WATCHDOG;
+                        deadline = Instant::now() + watchdog;
                         continue;
                     }
                     if let Some(st) = l.strip_prefix('@') {
@@ -698,7 +702,7 @@ fn run_isolated(mode: &str, tag: &str, cases: &[(usize, bool, &str)], dir: &std:
                         k += 1;
                         stage = "start".into();
                         first = false;
-                        deadline = Instant::now() + WATCHDOG;
+                        deadline = Instant::now() + watchdog;
                     }
                 }
                 Err(std::sync::mpsc::RecvTimeoutError::Timeout) => {
@@ -721,6 +725,25 @@ fn run_isolated(mode: &str, tag: &str, cases: &[(usize, bool, &str)], dir: &std:
         let _ = std::fs::remove_file(&path);
         if let Some(why) = died {
             if k < cases.len() {
+                // a watchdog expiry may be machine load: run the case alone with six times the limit
+                if why.starts_with("hang") && watchdog == WATCHDOG {
+                    let mut d2 = Vec::new();
+                    let one = [cases[k]];
+                    let r = run_isolated_w(mode, &format!("{}r", tag), &one, dir, &mut d2, WATCHDOG * 6);
+                    if let Some(res) = r.get(&cases[k].0) {
+                        if !res.starts_with("hang") {
+                            deaths.push(format!("{} case {} slow (exceeded the {} s watchdog once, finished alone)", mode, cases[k].0, WATCHDOG.as_secs()));
+                            if res.contains('@') && !res.contains('\t') {
+                                deaths.push(format!("{} case {} {}", mode, cases[k].0, res));
+                            }
+                            results.insert(cases[k].0, res.clone());
+                            k += 1;
+                            let _ = std::fs::remove_file(&errpath);
+                            from = k;
+                            continue;
+                        }
+                    }
+                }
                 let why = format!("{}@{}", why, stage);
                 deaths.push(format!("{} case {} {}", mode, cases[k].0, why));
                 results.insert(cases[k].0, why);
@@ -1449,7 +1472,7 @@ fn main() {
     let lexer_panics: Vec<serde_json::Value> = lexer_panics.into_values().filter(|v| !v.is_null()).collect();
 
     // ---- monitor (a subset in quick: all corpus + every k-th input; prelude on for every 25th of those)
-    let mon_stride = args.extra.get("mon_stride").and_then(|s| s.parse().ok()).unwrap_or(if thorough { 2 } else { 2 });
+    let mon_stride = args.extra.get("mon_stride").and_then(|s| s.parse().ok()).unwrap_or(if thorough { 3 } else { 2 });
     let prelude_stride = if thorough { 10 } else { 12 };
     let shards: usize = args.extra.get("shards").and_then(|s| s.parse().ok()).unwrap_or(6);
     let mon_cases: Vec<(usize, bool, &str)> = inputs
